@@ -142,7 +142,7 @@ func c16r1(c *Ctx) {
 				}
 			}
 		}
-		everyPath := func(st *ssa.Store, what string) {
+		everyPath := func(st ssa.Instruction, what string) {
 			construct := sp.Name + ": SetNewGasConfig updates " + what + " on every path"
 			barriers := map[ssa.Instruction]bool{st: true}
 			for _, r := range returnsOf(set) {
@@ -155,41 +155,72 @@ func c16r1(c *Ctx) {
 			}
 			c.OK(rule, FuncName(set), construct, c.P.InstrPos(st), "no return is reachable without the store unless the schedule is nil")
 		}
+		// the copies: stores into receiver fields made by SetNewGasConfig itself, or by a shared tail helper that is handed
+		// pointers to the fields (`setCost(&e.mut, &e.funcGasCost, &gasCost.BuiltInCost.X)` storing `*dst = *src`)
+		type copyOp struct {
+			field, val string
+			at         ssa.Instruction // the instruction of SetNewGasConfig that performs (or calls) the copy
+			pos        ssa.Instruction
+		}
+		var copies []copyOp
 		for _, b := range set.Blocks {
 			for _, in := range b.Instrs {
-				st, ok := in.(*ssa.Store)
-				if !ok {
-					continue
-				}
-				fa, ok := st.Addr.(*ssa.FieldAddr)
-				if !ok {
-					continue
-				}
-				fn, vt := fieldName(fa.X.Type(), fa.Field), se.Term(st.Val)
-				if fn == f && vt == "*"+gp+".BuiltInCost."+*sp.Cost {
-					everyPath(st, "."+f)
-				}
-				if base != "" && fn == base && vt == "*"+gp+".BaseOperationCost" {
-					everyPath(st, "."+base)
-				}
-				switch fn {
-				case f:
-					construct := sp.Name + ": SetNewGasConfig ." + f + " = " + vt
-					if vt == "*"+gp+".BuiltInCost."+*sp.Cost {
-						found = true
-						c.OK(rule, FuncName(set), construct, c.P.InstrPos(st), "the table's field of the new schedule")
-					} else {
-						c.FailX(Oblig{Rule: rule, Func: FuncName(set), Construct: construct, Pos: c.P.InstrPos(st), Kind: "violation",
-							Detail: "after a schedule change " + sp.Name + " is priced by " + vt, Expected: "gasCost.BuiltInCost." + *sp.Cost})
+				switch x := in.(type) {
+				case *ssa.Store:
+					if fa, ok := x.Addr.(*ssa.FieldAddr); ok {
+						copies = append(copies, copyOp{fieldName(fa.X.Type(), fa.Field), se.Term(x.Val), x, x})
 					}
-				case base:
-					construct := sp.Name + ": SetNewGasConfig ." + base + " = " + vt
-					if vt == "*"+gp+".BaseOperationCost" {
-						foundBase = true
-						c.OK(rule, FuncName(set), construct, c.P.InstrPos(st), "the per-byte prices of the new schedule")
-					} else {
-						c.Fail(rule, "violation", FuncName(set), construct, c.P.InstrPos(st), "per-byte prices are not taken from the new schedule: "+vt)
+				case *ssa.Call:
+					sc := x.Call.StaticCallee()
+					if sc == nil || len(sc.Blocks) == 0 || !c.P.InPkgs(sc, "builtInFunctions") {
+						continue
 					}
+					sub := se.Sub(x, sc)
+					for _, hb := range sc.Blocks {
+						for _, hin := range hb.Instrs {
+							st, ok := hin.(*ssa.Store)
+							if !ok {
+								continue
+							}
+							par, ok := st.Addr.(*ssa.Parameter)
+							if !ok {
+								continue
+							}
+							if a, _ := sub.actual(par); a != nil {
+								if fa, ok := a.(*ssa.FieldAddr); ok {
+									copies = append(copies, copyOp{fieldName(fa.X.Type(), fa.Field), sub.Term(st.Val), x, st})
+								}
+							}
+						}
+					}
+				}
+			}
+		}
+		for _, cp := range copies {
+			fn, vt := cp.field, cp.val
+			if fn == f && vt == "*"+gp+".BuiltInCost."+*sp.Cost {
+				everyPath(cp.at, "."+f)
+			}
+			if base != "" && fn == base && vt == "*"+gp+".BaseOperationCost" {
+				everyPath(cp.at, "."+base)
+			}
+			switch fn {
+			case f:
+				construct := sp.Name + ": SetNewGasConfig ." + f + " = " + vt
+				if vt == "*"+gp+".BuiltInCost."+*sp.Cost {
+					found = true
+					c.OK(rule, FuncName(set), construct, c.P.InstrPos(cp.pos), "the table's field of the new schedule")
+				} else {
+					c.FailX(Oblig{Rule: rule, Func: FuncName(set), Construct: construct, Pos: c.P.InstrPos(cp.pos), Kind: "violation",
+						Detail: "after a schedule change " + sp.Name + " is priced by " + vt, Expected: "gasCost.BuiltInCost." + *sp.Cost})
+				}
+			case base:
+				construct := sp.Name + ": SetNewGasConfig ." + base + " = " + vt
+				if vt == "*"+gp+".BaseOperationCost" {
+					foundBase = true
+					c.OK(rule, FuncName(set), construct, c.P.InstrPos(cp.pos), "the per-byte prices of the new schedule")
+				} else {
+					c.Fail(rule, "violation", FuncName(set), construct, c.P.InstrPos(cp.pos), "per-byte prices are not taken from the new schedule: "+vt)
 				}
 			}
 		}
